@@ -70,10 +70,13 @@ inductive Kind
   | populate            -- cache_local_versions(folder)
   | load (v : Nat)      -- load_schema_version(<bundled version v>)
   | refresh (m : Nat)   -- cache_xml_versions: re-download files 0 … m-1 (content = bundled content)
+  | peek (v : Nat)      -- one direct read of the cache file `v` (get_library_data opens library_data.json
+                        -- without listing the folder): absent → "not there", else its content
   deriving DecidableEq, Repr
 
-/-- the two ways `CacheLock.__enter__` raises `CacheException` -/
-inductive CErr | tooRecent | lockTimeout
+/-- the two ways `CacheLock.__enter__` raises `CacheException`; `tsUnreadable` is the `ValueError` of the
+unrepaired `_read_last_cached_time` on a truncated timestamp file (only in `Proto.current`) -/
+inductive CErr | tooRecent | lockTimeout | tsUnreadable
   deriving DecidableEq, Repr
 
 inductive Status | running | finished | crashed
@@ -90,7 +93,8 @@ inductive Pc
   | create (i : Nat)           -- open(target, 'wb')
   | append (i : Nat) (j : Nat) -- write chunk j
   | rename (i : Nat)           -- os.replace(tmp, final)
-  | writeTs                    -- _write_last_cached_time
+  | truncTs                    -- _write_last_cached_time: open(last_update.txt, 'w') (truncates)
+  | writeTs                    -- _write_last_cached_time: f.write(str(time))
   | unlock                     -- release()
   | list2                      -- load: os.listdir(cache) after the in-line population
   | read                       -- load: read the cache file found in the listing
@@ -98,7 +102,7 @@ inductive Pc
 
 /-- inside `with CacheLock(...)` (body and `__exit__`) -/
 def Pc.locked : Pc → Bool
-  | .pick _ | .mktemp _ | .create _ | .append _ _ | .rename _ | .writeTs | .unlock => true
+  | .pick _ | .mktemp _ | .create _ | .append _ _ | .rename _ | .truncTs | .writeTs | .unlock => true
   | _ => false
 
 structure Proc where
@@ -117,27 +121,30 @@ structure St where
   files : Name → Option Content
   lockFile : Bool          -- cache_lock.lock exists
   holder : Option Nat      -- process holding the flock
-  ts : Option Nat          -- last_update.txt
+  ts : Option Nat          -- last_update.txt holds this number
+  tsTorn : Bool            -- last_update.txt exists but is empty (truncated, not yet written); then `ts = none`
   dirty : Bool             -- something was created in the directory (nothing is ever deleted, so
                            -- `os.listdir` is empty iff `dirty = false`, see `Props.C19.dirty_sound`)
   procs : Nat → Proc
 
 def ver : Kind → Nat
   | .load v => v
+  | .peek v => v
   | _ => 0
 
 def startPc : Kind → Pc
   | .load _ => .list1
+  | .peek _ => .read
   | _ => .readTs
 
-/-- a process that is not part of the system -/
-def idle : Proc := ⟨.populate, 0, .readTs, .finished, none, false, none⟩
+/-- a process that is not part of the system (never runs: recorded as dead) -/
+def idle : Proc := ⟨.populate, 0, .readTs, .crashed, none, false, none⟩
 
 def start (k : Kind) (now : Nat) : Proc := ⟨k, now, startPc k, .running, none, false, none⟩
 
 /-- empty cache directory, every process at its first step -/
 def init (ps : List (Kind × Nat)) : St :=
-  { files := fun _ => none, lockFile := false, holder := none, ts := none, dirty := false,
+  { files := fun _ => none, lockFile := false, holder := none, ts := none, tsTorn := false, dirty := false,
     procs := fun p => match ps[p]? with
       | some (k, now) => start k now
       | none => idle }
@@ -166,7 +173,7 @@ def target (proto : Proto) (k : Kind) (p i : Nat) : Name :=
 def loopPc (c : Cfg) (k : Kind) (i : Nat) : Pc :=
   if i < total c k then .pick i
   else match k with
-    | .refresh _ => .writeTs
+    | .refresh _ => .truncTs
     | _ => .unlock
 
 def afterCopy (c : Cfg) (proto : Proto) (k : Kind) (i : Nat) : Pc :=
@@ -190,10 +197,16 @@ def stepPc (c : Cfg) (proto : Proto) (p : Nat) (s : St) (pr : Proc) : St :=
     | .list2 => listed c proto p s
     | .read => s.setP p { pr with got := some (s.files (.final (ver pr.kind))), status := .finished }
     | .readTs =>
-        if pr.now < s.ts.getD 0 + c.thr then s.setP p (leave { pr with err := some .tooRecent })
-        else match proto with
-          | .safe => s.setP p { pr with pc := .openLock }
-          | .current => s.setP p { pr with pc := loopPc c pr.kind 0 }
+        match proto with
+        | .safe =>
+            -- a truncated (empty, unparsable) timestamp reads as 0, like a missing one
+            if pr.now < s.ts.getD 0 + c.thr then s.setP p (leave { pr with err := some .tooRecent })
+            else s.setP p { pr with pc := .openLock }
+        | .current =>
+            -- `except FileNotFoundError or ValueError or IOError` catches only the first: float('') escapes
+            if s.tsTorn then s.setP p { pr with err := some .tsUnreadable, status := .finished }
+            else if pr.now < s.ts.getD 0 + c.thr then s.setP p (leave { pr with err := some .tooRecent })
+            else s.setP p { pr with pc := loopPc c pr.kind 0 }
     | .openLock => { s with lockFile := true, dirty := true }.setP p { pr with pc := .tryLock c.retries }
     | .tryLock k =>
         match s.holder with
@@ -226,7 +239,8 @@ def stepPc (c : Cfg) (proto : Proto) (p : Nat) (s : St) (pr : Proc) : St :=
         | some ct =>
             { s with files := upd (upd s.files (.final i) (some ct)) (.tmp p i) none }.setP p { pr with pc := loopPc c pr.kind (i + 1) }
         | none => s.setP p { pr with pc := loopPc c pr.kind (i + 1) }
-    | .writeTs => { s with ts := some pr.now, dirty := true }.setP p { pr with pc := .unlock }
+    | .truncTs => { s with ts := none, tsTorn := true, dirty := true }.setP p { pr with pc := .writeTs }
+    | .writeTs => { s with ts := some pr.now, tsTorn := false, dirty := true }.setP p { pr with pc := .unlock }
     | .unlock =>
         { s with holder := if s.holder = some p then none else s.holder }.setP p (leave pr)
 
@@ -283,6 +297,7 @@ def labelOf (p : Nat) (s : St) : Event :=
     | .create i => ⟨p, "create", i, 0⟩
     | .append i j => ⟨p, "append", i, j⟩
     | .rename i => ⟨p, "rename", i, 0⟩
+    | .truncTs => ⟨p, "truncTs", 0, 0⟩
     | .writeTs => ⟨p, "writeTs", 0, 0⟩
     | .unlock => ⟨p, "unlock", 0, 0⟩
   | _ => ⟨p, "idle", 0, 0⟩
